@@ -4,7 +4,8 @@ From Coq Require Import NArith List Bool Arith.
 From LC Require Import Base.Lib Gen.Editor_gen Model.Composition Model.Conversion Model.Editor Model.EditorRun
      Model.EdInst Proofs.CompositionProofs Proofs.EditorInv Proofs.EditorFrames Proofs.EditorWitness.
 From Coq Require Import ZArith.
-From LC Require Import Gen.Keyboard_gen Model.CapiKeys Model.CapiConfig Model.CapiRun Proofs.CapiKeysProofs Proofs.CapiInv Proofs.EngineTiles.
+From LC Require Import Gen.Keyboard_gen Model.CapiKeys Model.CapiConfig Model.CapiRun Proofs.CapiKeysProofs Proofs.CapiInv Proofs.EngineTiles
+     Proofs.EdInstProofs Proofs.CommitConverse Proofs.CapiCommit.
 Import ListNotations.
 Open Scope nat_scope.
 
@@ -58,6 +59,20 @@ Theorem C02_commit_string_only_with_commit : forall D SY (dops : dict_ops D) (so
 Proof. intros D SY dops sops conv. exact (commit_string_only_with_commit dops sops conv). Qed.
 Print Assumptions C02_commit_string_only_with_commit.
 
+(* ... and the other direction: when the key result says Commit there IS a commit string.  Every key event, every
+   state, every layout; `good` is any predicate on dictionaries (for the modelled one: no empty key / phrase) over
+   which the conversion of a non-empty buffer starts with an interval whose text is not empty - part of the tiling
+   contract of C03, which the correspondence checks on every logged conversion (one character per symbol, or the
+   spelling of a syllable that has no word). *)
+Theorem C02_commit_result_has_a_commit_string :
+  forall D SY (dops : dict_ops D) (sops : syl_ops SY) conv (good : D -> Prop),
+  (forall d k c n, good d -> symbols c <> [] -> head_text (conv d k c n)) ->
+  forall (e : editor D SY) ev e',
+  good (dict (sh e)) -> good (dict (sh e')) ->
+  process_keyevent dops sops conv e ev = Ok (e', BCommit) -> commit_buf (sh e') <> [].
+Proof. intros D SY dops sops conv good H. exact (commit_result_has_commit_string dops sops conv good H). Qed.
+Print Assumptions C02_commit_result_has_a_commit_string.
+
 (* the pre-fix witness and its behaviour after the fix *)
 Theorem C02_stale_commit_witness :
   (exists e1 e2 e3,
@@ -84,9 +99,38 @@ Theorem C02_commit_Check_only_with_a_commit_result : forall conv (c : cctx) o c'
 Proof. exact c_commit_check_only_with_commit. Qed.
 Print Assumptions C02_commit_Check_only_with_a_commit_result.
 
+(* both directions at the C level: after any key-entry call from a context satisfying the context invariant (every
+   context reachable by C calls: Proofs/CapiInv.crun_inv), the key result is Commit exactly when
+   chewing_commit_Check = 1 *)
+Theorem C02_commit_Check_exactly_with_a_commit_result : forall conv,
+  (forall d k c n, md_fine d -> wf_comp c -> contiguous 0 (clen c) (conv d k c n) = true) ->
+  (forall d k c n, md_fine d -> symbols c <> [] -> head_text (conv d k c n)) ->
+  forall ss0, ss_good ss0 -> ss_cursor ss0 = None ->
+  forall (c : cctx) o c', key_call o -> cop_fine o -> CInv ss0 c -> cstep conv c o = Ok c' ->
+  c' = c \/ (last (sh (cx_ed c')) = BCommit <-> chewing_commit_Check c' = 1%Z).
+Proof. exact c_commit_check_iff_commit_result. Qed.
+Print Assumptions C02_commit_Check_exactly_with_a_commit_result.
+
 (* non-vacuity: Hsu by number, English mode, `x` on an empty buffer: committed at once *)
 Definition c02_history : list cop := [CSetKBType 1; CConfigSetInt (Config.iopt_name Config.OLanguageMode) 0; CDefault 120]%Z.
 Example C02_c_history_example :
   exists c, crun mf_conv (cx_init (mkMD [] [] []) [] ss_empty 0%N) c02_history = Ok c /\
             chewing_commit_Check c = 1%Z /\ c_commit_string c = [120%N] /\ chewing_keystroke_CheckAbsorb c = 0%Z.
 Proof. vm_compute. eexists. repeat split. Qed.
+
+(* non-vacuity of the other direction: a converted buffer (two syllables, one word each) committed with Enter -
+   the key result is Commit, chewing_commit_Check = 1, the commit string is what was displayed, and the
+   conversion the context computed meets the head_text assumption *)
+Definition c02_dict : memdict := mkMD (bt_insert ([10240], [27425], 10, 0) [])%N [] [].
+Definition c02_enter_history : list cop := [CSetKBType 1; CDefault 97; CHandle kcSpace 0; CDefault 97; CHandle kcSpace 0]%Z.
+Example C02_c_enter_example :
+  exists c c', crun mf_conv (cx_init c02_dict [] ss_empty 0%N) c02_enter_history = Ok c /\
+               head_text (conversion mf_conv (sh (cx_ed c))) /\
+               cstep mf_conv c (CHandle kcEnter 0) = Ok c' /\
+               last (sh (cx_ed c')) = BCommit /\ chewing_commit_Check c' = 1%Z /\
+               c_commit_string c' = display mf_conv (sh (cx_ed c)) /\ c_commit_string c' = [27425; 27425]%N.
+Proof.
+  eexists. eexists. split; [vm_compute; reflexivity|]. split.
+  - vm_compute. eexists. eexists. split; [reflexivity | discriminate].
+  - split; [vm_compute; reflexivity|]. vm_compute. repeat split.
+Qed.
